@@ -98,21 +98,37 @@ func Harness_C12_token_roundtrip() {
 	verifReach("end")
 }
 
+// Native replay only. The solver's token carries (a prefix of) the signature of the *uninterpreted* MAC and an
+// expiry relative to the model's clock (verifNowSec). If the signature bytes present are the model's valid
+// signature for these fields, the token is re-signed with the real HMAC so that the real code sees the same
+// situation - a correctly signed token with these fields, possibly cut short; an expiry that lies in the model's
+// future but in the real past is first moved into the real future (the token stays "unexpired").
+func verifNativeResign(ta *authenticator, tok []byte, n int) {
+	sl := n - 18
+	if sl > 32 {
+		sl = 32
+	}
+	mm := &verifMac{key: ta.hmacSalt}
+	mm.Write(tok[:18])
+	if !bytes.Equal(mm.modelSum(nil)[:sl], tok[18:18+sl]) {
+		return
+	}
+	exp := int64(uint32(tok[8]) | uint32(tok[9])<<8 | uint32(tok[10])<<16 | uint32(tok[11])<<24)
+	if now := time.Now().Unix(); exp > verifNowSec && exp <= now+1 {
+		e := uint32(now + 3600)
+		tok[8], tok[9], tok[10], tok[11] = byte(e), byte(e>>8), byte(e>>16), byte(e>>24)
+	}
+	mm2 := &verifMac{key: ta.hmacSalt}
+	mm2.Write(tok[:18])
+	copy(tok[18:18+sl], mm2.Sum(nil)[:sl])
+}
+
 // An arbitrary byte string authenticates only if every check the property lists holds.
 func harnessC12TokenAny(n int) {
 	ta := verifAuthenticator()
 	tok := verifNondetBytes("tok", n)
-	if !verifIsSymbolicEngine() && n >= 50 {
-		// Native replay: the solver's token carries the signature of the *uninterpreted* MAC. If it is the
-		// model's valid signature for these fields, re-sign with the real HMAC so that the real code sees
-		// the same situation (a correctly signed token with these fields).
-		mm := &verifMac{key: ta.hmacSalt}
-		mm.Write(tok[:18])
-		if bytes.Equal(mm.modelSum(nil), tok[18:50]) {
-			mm2 := &verifMac{key: ta.hmacSalt}
-			mm2.Write(tok[:18])
-			copy(tok[18:50], mm2.Sum(nil))
-		}
+	if !verifIsSymbolicEngine() && n > 18 {
+		verifNativeResign(ta, tok, n)
 	}
 	got, _, err := ta.Authenticate(tok, "")
 	if n < 50 {
@@ -151,3 +167,4 @@ func Harness_C12_token_any50() { harnessC12TokenAny(50) }
 func Harness_C12_token_any51() { harnessC12TokenAny(51) }
 func Harness_C12_token_any49() { harnessC12TokenAny(49) }
 func Harness_C12_token_any0()  { harnessC12TokenAny(0) }
+func Harness_C12_token_any19() { harnessC12TokenAny(19) }
